@@ -50,6 +50,14 @@ CLAIMED = {
             "Every value read of a looked-up entry is behind the expiry gate; Expired removals are justified by the deadline; peek refreshes nothing (3 demonstrated known findings); configured time_to_live/time_to_idle reach the parameter of the same role at all 36 call sites.", "§4 C12"),
     "C13": ("must-follow + backward data-flow (subtracted amount derives from the removed entry's cost), who-may-write the counter, insertion=>policy event, must-held guard analysis for maintenance",
             "Removal=>subtract-that-entry's-cost at all 21 map mutation sites, only map-mutating code writes current_cost, every insertion is announced to the policy, maintenance runs under the shard's maintenance lock.", "§4 C13"),
+    "C14": ("backward data-flow (victims and reported costs derive from records just removed from the tracking structures), must-follow path rule (a removed resident key is nominated, "
+            "re-tracked or returned on every path), must-pass rule for the cost parameter of on_admit, edge-dominance of insertion-capable calls in on_access by a tracked-test, "
+            "paired-structure agreement, LRU/FIFO definition shapes",
+            "PARTIAL: seven structural clauses over the built-in policies (arc, clock, fifo, lru, sieve, slru, tinylfu; random in the thorough tier's full-feature configuration): nominated keys and reported "
+            "costs come from records the policy just stopped tracking; a resident key leaves the tracking structures only by nomination, re-tracking or on_remove/clear; on_admit records the "
+            "given cost on every path (1 demonstrated known finding: FIFO; ARC/Clock/SLRU repaired); on_access never starts tracking; paired structures and the LruList total move together; "
+            "LRU moves on access and evicts from the back, FIFO never reorders. Which victim is picked (segment sizing, ARC adaptation, sketch estimates, clock hand) and 'frees at least the "
+            "requested cost' as a number are not decided.", "§9.8 C14"),
     "C15": ("MIR must-held guard analysis + dominator rules on the loader bodies",
             "Leader election is one critical section, insert -> remove marker -> complete order, and completion/waiter registration share one mutex.", "§4 C15"),
     "C16": ("edge-dominance + backward data-flow (notification value derives from the removed entry) + exactly-once path rule",
@@ -86,7 +94,6 @@ ADDENDA = {
 }
 
 NOT_APPLICABLE = {
-    "C14": "Quantifies over arbitrary admit/access/remove/evict call sequences against per-policy bookkeeping (segment sizes, ghost lists, sketch counters): runtime values, no common structural clause across eight deliberately different algorithms (DESIGN §5).",
     "C20": "Escaping round-trips for arbitrary Unicode, padding/truncation and roll/retention arithmetic are functions of input values and clock steps; the only structural fact (serde_json + one newline) constrains no realistic change (DESIGN §5).",
 }
 PENDING = "rule module under construction / violations on the pinned tree still being triaged (demonstrate, then fix or list); not registered until the check is silent on the unchanged tree"
